@@ -11,10 +11,11 @@ REQ_SETUP = ("setopt req:resend-tick ms 10", "setopt req:resend-time ms 30")
 REP_SETUP = ("symw 1",)
 
 
-def rep_part(v, thorough):
-    r = tlc("proto/Rep.tla", "Rep_mc.cfg", workers=12, timeout=2400)
-    tlc_require_ok(r, "Rep")
-    v.add_tlc("proto/Rep.tla:mc", r)
+def rep_part(v, thorough, mc=True):
+    if mc:
+        r = tlc("proto/Rep.tla", "Rep_mc.cfg", workers=12, timeout=2400)
+        tlc_require_ok(r, "Rep")
+        v.add_tlc("proto/Rep.tla:mc", r)
     replay_sim(v, "rep", False, "proto/Rep.tla", "Rep_sim.cfg", 20000 if thorough else 1500, 35, auto=True, setup=REP_SETUP)
     # every class of transition of the complete one-connection graph (incl. cancel, context close and socket close with a
     # queued reply and a pending receive)
